@@ -104,6 +104,26 @@ func genRegistry(w *World) string {
 	sb.WriteString("}\n\n")
 	ctors.WriteString("}\n\n")
 	sb.WriteString(ctors.String())
+	// discriminator factories
+	sb.WriteString("var factories = map[string]map[string]any{\n")
+	for i, m := range modules {
+		p := w.pkgs[m]
+		fmt.Fprintf(&sb, "\t%q: {\n", m)
+		var names []string
+		for n := range p.Members {
+			names = append(names, n)
+		}
+		sort.Strings(names)
+		for _, n := range names {
+			fn := p.Func(n)
+			if fn == nil || !strings.HasPrefix(n, "New") || !strings.Contains(n, "MessageBy") || fn.Signature.Params().Len() != 1 || fn.Signature.Results().Len() != 2 {
+				continue
+			}
+			fmt.Fprintf(&sb, "\t\t%q: m%d.%s,\n", n, i, n)
+		}
+		sb.WriteString("\t},\n")
+	}
+	sb.WriteString("}\n\n")
 	// primitives
 	sb.WriteString("var prims = map[string]any{\n")
 	cp := w.pkgs["codec"].Pkg
@@ -331,6 +351,18 @@ func judge(j Judge, res []RunResult, runErr error) (confirmed bool, observed any
 			return true, map[string]any{"buf": r.Buf, "note": "prior bytes altered"}
 		}
 		return r.Buf[len(j.ExpectHex):] != r2.Buf, map[string]any{"appended": r.Buf[len(j.ExpectHex):], "into_empty": r2.Buf}
+	case "body_type_ne":
+		if m, ok := r.Msg.(map[string]any); ok {
+			if b, ok := m[j.Note].(map[string]any); ok {
+				return b["$type"] != j.ExpectRet, map[string]any{"body_type": b["$type"]}
+			}
+			return true, map[string]any{"body": m[j.Note]}
+		}
+		return false, r.Msg
+	case "crc32_ne":
+		raw, _ := hex.DecodeString(j.ExpectHex)
+		want := fmt.Sprint(crc32.ChecksumIEEE(raw))
+		return fmt.Sprint(r.Ret) != want, map[string]any{"ret": r.Ret, "reference": want}
 	case "prefix_ne":
 		return !strings.HasPrefix(r.Buf, j.ExpectHex), map[string]any{"buf": r.Buf}
 	case "msg_ne":
